@@ -46,6 +46,8 @@ def discover_roles(F, E, cls):
 def collect_guards(F, f, errors_id, sc):
     """[(loopctx tuple, dnf set, node)] for every push_back on the error list; structural walk."""
     out = []
+    lambdas = {}
+    inl = []
 
     def is_push(n):
         return (n.get("k") == "call" and callee(n).get("name") in ("push_back", "emplace_back") and
@@ -59,8 +61,27 @@ def collect_guards(F, f, errors_id, sc):
             for x in s["body"]:
                 rec(x, loops, dnf)
         elif k == "decl":
+            if isinstance(s.get("init"), dict) and s["init"].get("k") == "lambda":
+                lambdas[s["id"]] = s["init"]
+                return
             sc.bind_local(s)
         elif k == "expr":
+            e0 = s["e"]
+            # a call of a local helper lambda: its body is checked in place, parameters standing for the arguments
+            if e0.get("k") == "call" and callee(e0).get("op") == "()" and isinstance(e0.get("obj"), dict) and strip_copy(e0["obj"]).get("k") == "var" and strip_copy(e0["obj"]).get("id") in lambdas:
+                lam = lambdas[strip_copy(e0["obj"])["id"]]
+                specs = [sp_ for sp_ in lam.get("specs", []) if sp_.get("fid") == callee(e0).get("fid")] or lam.get("specs", [])
+                if len(specs) != 1 and len(lam.get("specs", [])) != 1:
+                    raise Broken("validity check: cannot resolve the helper lambda called at line %s" % s.get("line"))
+                sp_ = specs[0]
+                if len(inl) > 8:
+                    raise Broken("validity check: helper nesting too deep")
+                for p_, a_ in zip(sp_.get("params", []), e0.get("args", [])):
+                    sc.local_init[p_["id"]] = a_
+                inl.append(1)
+                rec(sp_["body"], loops, dnf)
+                inl.pop()
+                return
             for n in walk(s["e"]):
                 if is_push(n):
                     out.append((tuple(loops), dnf, n))
